@@ -388,6 +388,14 @@ def run(c):
     except Exception as e:
         c.obligation("translator: NativeFields_gen regenerated", False, "translator", repr(e)[:600])
         gen_ok = False
+    try:
+        from translator import gen_sqlvalue
+        lib.write_if_changed(os.path.join(lib.COQ, "Gen", "SqlValue_gen.v"), gen_sqlvalue.generate(lib.REPO))
+        c.obligation("translator: value table of the SQL definition syntax (_parse_scalar_literal, 44 scripted texts) regenerated (Gen/SqlValue_gen.v)", True, "translator")
+        c.obligation("translator validation: interpreted _parse_scalar_literal == the real function under CPython on the same texts", gen_sqlvalue.table(lib.REPO) == gen_sqlvalue.table(lib.REPO, real=True), "translator")
+    except Exception as e:
+        c.obligation("translator: value table of the SQL definition syntax regenerated (Gen/SqlValue_gen.v)", False, "translator", repr(e)[:600])
+    c.trusted.append("translator/pyinterp.py + gen_sqlvalue.py (fail-closed definitional interpreter; `re.match` and float() are the real ones; validated against CPython each run)")
     if gen_ok:
         c.build_props()
     evals = 0
